@@ -52,8 +52,32 @@ class _FakeSelector(selectors.BaseSelector):
             raise Stuck(f"nothing scheduled at virtual time {lp._vt:.6f}")
         if timeout > 0:
             lp._vt += timeout
+            lp._spin = 0
             if lp._vt > lp.horizon:
-                raise Stuck(f"virtual time horizon {lp.horizon} exceeded")
+                raise Stuck("virtual time horizon exceeded")
+        else:
+            # Every loop iteration that runs callbacks costs 1 microsecond of virtual time
+            # (CPU time).  Without it, code that re-arms a timer with a residual timeout
+            # such as 0.05 - 0.05 = 7e-18 would loop for ever at a frozen clock (Zeno).
+            lp._vt += 1e-6
+            lp._spin += 1
+            if lp._spin > lp.spin_limit:
+                who = []
+                try:
+                    for t in asyncio.all_tasks(lp):
+                        if not t.done():
+                            c, chain = t.get_coro(), []
+                            while c is not None and len(chain) < 8:
+                                f = getattr(c, "cr_frame", None) or getattr(c, "gi_frame", None)
+                                if f is not None:
+                                    chain.append("%s:%d" % (f.f_code.co_name, f.f_lineno))
+                                c = getattr(c, "cr_await", None) or getattr(c, "gi_yieldfrom", None)
+                            who.append(">".join(chain))
+                except Exception:  # noqa: BLE001
+                    pass
+                if not hasattr(lp, "livelock_tasks"):
+                    lp.livelock_tasks = sorted(who)
+                raise Stuck("livelock: %d busy loop iterations without a timer wait" % lp._spin)
         return []
 
     def close(self):
@@ -61,6 +85,26 @@ class _FakeSelector(selectors.BaseSelector):
 
     def get_map(self):
         return self._map
+
+
+class DetFuture(asyncio.Future):
+    """Future whose hash is its creation number: sets of futures (asyncio.wait, the
+    fetcher's waiter set, ...) then iterate in an order that does not depend on
+    memory addresses, so a run is reproducible across processes."""
+    __slots__ = ("_seq",)
+
+    def __hash__(self):
+        return self._seq
+
+
+class DetTask(asyncio.Task):
+    def __init__(self, coro, *, loop, **kw):
+        loop._fseq += 1
+        self._seq = loop._fseq          # needed by __hash__ during Task.__init__ (task registry)
+        super().__init__(coro, loop=loop, **kw)
+
+    def __hash__(self):
+        return self._seq
 
 
 class SimLoop(asyncio.SelectorEventLoop):
@@ -74,16 +118,25 @@ class SimLoop(asyncio.SelectorEventLoop):
         self.rng = random.Random(seed)
         super().__init__(_FakeSelector(self))
         self._clock_resolution = 1e-9
-        self.set_task_factory(self._task_factory)
+        self.set_task_factory(self._mk_task)
         self.steps = 0
+        self._fseq = 0
+        self._spin = 0
+        self.spin_limit = 300_000
 
     # --- time ---------------------------------------------------------------
     def time(self):
         return self._vt
 
     # --- ownership ------------------------------------------------------------
-    def _task_factory(self, loop, coro, **kw):
-        t = asyncio.Task(coro, loop=loop, **kw)
+    def create_future(self):
+        f = DetFuture(loop=self)
+        self._fseq += 1
+        f._seq = self._fseq
+        return f
+
+    def _mk_task(self, loop, coro, **kw):
+        t = DetTask(coro, loop=loop, **kw)
         self.tasks_by_owner.append((self.owner, t))
         return t
 
